@@ -39,6 +39,10 @@ func init() {
 	sk.Register("C32.gosched", sk.Scenario{Run: func(rc *sk.RunCtx) { runGoNode(rc, "C32") }})
 	sk.Register("C28.gosched", sk.Scenario{Run: func(rc *sk.RunCtx) { runGoNode(rc, "C28") }})
 	sk.Register("C29.gosched", sk.Scenario{Run: func(rc *sk.RunCtx) { runGoNode(rc, "C29") }})
+	// C34 (deadlock half): no state oracle, the scheduler's own verdicts decide — every remaining task waiting at
+	// a lock point for a lock held by a parked task (lock-order inversion, lock taken twice) is class "deadlock",
+	// a panic in nebula code is class "panic"
+	sk.Register("C34.gosched", sk.Scenario{Run: func(rc *sk.RunCtx) { runGoNode(rc, "C34") }})
 }
 
 type goNodeWorld struct {
